@@ -87,8 +87,14 @@ type ocspBehaviour struct {
 	name  string
 	class ocspClass
 	inv   int // for clsRevokedInv: -1 before, 0 equal, +1 after the reference signing time
+	prime string // behaviour whose genuine answer the library processes once, in the same execution, before this one is served
 	make  func(w *ocspWorld) netsim.Answer
 }
+
+// c04ByName looks a behaviour up by name (set in init: behaviours may refer to other behaviours' artefacts without an initialisation cycle).
+var c04ByName func(name string) *ocspBehaviour
+
+func init() { c04ByName = ocspByName }
 
 func okResp(body []byte) netsim.Answer {
 	return netsim.Answer{Status: 200, Header: http.Header{"Content-Type": {"application/ocsp-response"}}, Body: body}
@@ -215,6 +221,12 @@ func ocspBehaviours() []ocspBehaviour {
 	add("good/signature-zeroed", clsOther, func(w *ocspWorld) netsim.Answer {
 		return okResp(pki.ForgeOCSP(pki.OCSPSpec{Issuer: w.root, Signer: w.root.Key, Responder: w.root, ZeroSignature: true, Singles: []pki.OCSPSingle{single(w, pki.OCSPGood)}}))
 	})
+	// a signature transplant: "good" content under the signature value of the genuine Revoked answer, which the library has processed
+	// just before (in the same execution): a verdict on a signature must not be remembered by signature value
+	out = append(out, ocspBehaviour{name: "good-content-under-the-signature-of-revoked/issuer(processed-just-before)", class: clsOther, prime: "revoked/issuer", make: func(w *ocspWorld) netsim.Answer {
+		g := w.answer(c04ByName("revoked/issuer"))
+		return okResp(pki.ForgeOCSP(pki.OCSPSpec{Issuer: w.root, Signer: w.root.Key, Responder: w.root, SignatureOf: g.Body, Singles: []pki.OCSPSingle{single(w, pki.OCSPGood)}}))
+	}})
 	add("good/tbs-changed-after-signing", clsOther, func(w *ocspWorld) netsim.Answer {
 		return okResp(pki.ForgeOCSP(pki.OCSPSpec{Issuer: w.root, Signer: w.root.Key, Responder: w.root, FlipTBS: true, Singles: []pki.OCSPSingle{single(w, pki.OCSPGood)}}))
 	})
@@ -478,6 +490,18 @@ func (s *c04Scenario) body(c *mc.Ctx) {
 			order = append(order, idx)
 		}
 		contacted[idx] = b
+		if b.prime != "" {
+			// the genuine twin is answered to a check of its own first (verdict not used)
+			g := w.answer(c04ByName(b.prime))
+			ptr := &netsim.Transport{Handler: func(*netsim.Request, *http.Request) netsim.Answer { return g }}
+			func() {
+				defer func() { recover() }()
+				pres, _ := revocsp.CheckStatus(revocsp.Options{CertChain: []*x509.Certificate{w.leaf.X, w.root.X}, SigningTime: st, HTTPClient: ptr.Client()})
+				if len(pres) == 2 && pres[0] != nil {
+					c.Tracef("priming: genuine %q processed first (verdict %s)", b.prime, pres[0].Result)
+				}
+			}()
+		}
 		c.Cover("ocsp-answer:" + b.name)
 		c.Tracef("%s %s -> answer %q", r.Method, r.URL, b.name)
 		return w.answer(b)
